@@ -114,7 +114,7 @@ Qed.
 (* Before the count fix (finding C14-F2): history_backward(0) walked to the
    oldest entry, history_forward(0) to the newest, instead of staying. *)
 Definition zero_witness : hs :=
-  mk [[97]; [98]; [99]] 1 0 None None V_UNKNOWN false (mkst [[98]; [97]] [[97]; [98]] true) (Some 2) true false.
+  mk [[97]; [98]; [99]] 1 0 None None V_UNKNOWN false (mkst [[98]; [97]] [[97]; [98]] true) (Some 2) true false false.
 
 Lemma back_forth_zero_pinned_refuted :
   exists c s, Inv s /\ ehs s = false /\ hst s = None /\ 0 <= 0 <= wi s /\
@@ -231,7 +231,7 @@ Lemma auto_up_prefix c s n g :
 Proof.
   intros He. unfold auto_up, cursor_up. destruct (0 <? _).
   - left. unfold set_pref; proj. apply set_cursor_wi.
-  - pose proof (history_backward_prefix c s n He) as B. unfold reached_ok in *.
+  - destruct (sel s); [left; reflexivity|]. pose proof (history_backward_prefix c s n He) as B. unfold reached_ok in *.
     destruct g; [|exact B]. unfold go_start_of_line. rewrite set_cursor_wi, set_cursor_text. exact B.
 Qed.
 
@@ -240,7 +240,7 @@ Lemma auto_down_prefix c s n g :
 Proof.
   intros He. unfold auto_down, cursor_down. destruct (_ <? _).
   - left. unfold set_pref; proj. apply set_cursor_wi.
-  - pose proof (history_forward_prefix c s n He) as B. unfold reached_ok in *.
+  - destruct (sel s); [left; reflexivity|]. pose proof (history_forward_prefix c s n He) as B. unfold reached_ok in *.
     destruct g; [|exact B]. unfold go_start_of_line. rewrite set_cursor_wi, set_cursor_text. exact B.
 Qed.
 
@@ -284,15 +284,26 @@ Proof.
   - destruct (i <? - len (wl s)); cbn [ok fst snd]; [exact Hh | rewrite go_to_history_hst; exact Hh].
   - unfold auto_up, cursor_up. destruct (0 <? _).
     + unfold set_pref; proj. rewrite set_cursor_hst. exact Hh.
-    + destruct gts; [unfold go_start_of_line; rewrite set_cursor_hst|];
+    + destruct (sel s); [exact Hh|]. destruct gts; [unfold go_start_of_line; rewrite set_cursor_hst|];
         apply history_backward_hst; assumption.
   - unfold auto_down, cursor_down. destruct (_ <? _).
     + unfold set_pref; proj. rewrite set_cursor_hst. exact Hh.
-    + destruct gts; [unfold go_start_of_line; rewrite set_cursor_hst|];
+    + destruct (sel s); [exact Hh|]. destruct gts; [unfold go_start_of_line; rewrite set_cursor_hst|];
         apply history_forward_hst; assumption.
   - unfold end_of_history. rewrite go_to_history_hst. apply history_forward_hst; assumption.
   - rewrite set_cursor_hst; exact Hh.
   - rewrite set_cursor_hst; exact Hh.
   - rewrite set_cursor_hst; exact Hh.
   - rewrite validate_hst; exact Hh.
+  - unfold jump. destruct (_ && _); [|exact Hh]. rewrite set_cursor_hst, set_wi_hst. exact Hh.
+  - exact Hh.
+Qed.
+
+(* with a selection Up/Down never browse: they move inside the text or do nothing *)
+Lemma selection_no_browse c s n g :
+  sel s = true -> wi (auto_up c s n g) = wi s /\ wi (auto_down c s n g) = wi s.
+Proof.
+  intros H. unfold auto_up, auto_down, cursor_up, cursor_down. rewrite H.
+  split; [destruct (0 <? _) | destruct (_ <? _)]; try reflexivity;
+    unfold set_pref; proj; apply set_cursor_wi.
 Qed.
